@@ -27,7 +27,8 @@ from registry import PROPERTIES  # noqa: E402
 
 
 def _worker(args):
-    modname, hidx, case_idx, tier = args
+    modname, hidx, case_idx, tier = args[:4]
+    canary = len(args) > 4 and args[4]
     import warnings
     warnings.simplefilter("ignore")
     from pyvc.loader import Repo
@@ -35,7 +36,7 @@ def _worker(args):
     t0 = time.time()
     try:
         mod = importlib.import_module(modname)
-        h = mod.HARNESSES[hidx]
+        h = (mod.CANARIES if canary else mod.HARNESSES)[hidx]
         repo = Repo(REPO, numpy_mode=getattr(h, "numpy_mode", "real"))
         import copy
         cases = list(type(h).cases(h))
@@ -52,7 +53,7 @@ def _worker(args):
             except Exception as e:
                 fn.append({"function": f"{m}:{q}", "error": str(e)})
         return {"harness": f"{modname}:{h.name}", "hidx": hidx, "obs": [o.to_json() for o in obs], "stats": stats,
-                "functions": fn, "wall": time.time() - t0}
+                "functions": fn, "wall": time.time() - t0, "canary": bool(canary)}
     except Exception as e:
         return {"harness": f"{modname}#{hidx}", "hidx": hidx, "error": f"{type(e).__name__}: {e}",
                 "traceback": traceback.format_exc(), "obs": [], "stats": {}, "functions": [], "wall": time.time() - t0}
@@ -68,6 +69,10 @@ def run_deductive(prop, tier, jobs):
             ncases = len(list(h.cases()))
             for ci in range(ncases):
                 tasks.append((modname, hidx, ci, tier))
+        for hidx, h in enumerate(getattr(mod, "CANARIES", [])):
+            if prop.get("harness_filter") and not prop.get("canaries", True):
+                continue
+            tasks.append((modname, hidx, None, tier, True))
     results = []
     if not tasks:
         return results
@@ -147,6 +152,13 @@ def main():
     violations, undecided, errors, known_hits = [], [], [], []
     xfails = []
     all_obs = []
+    canary_info = []
+    for r in [x for x in results if x.get("canary")]:
+        refuted = [o["name"] for o in r["obs"] if o["status"] == "REFUTED"]
+        canary_info.append({"canary": r["harness"], "refuted": len(refuted)})
+        if not refuted:
+            errors.append(f"must-fail canary {r['harness']} was not refuted (the engine proves too much, or the canary is stale)")
+    results = [x for x in results if not x.get("canary")]
     for r in results:
         if r.get("error"):
             errors.append(f"{r['harness']}: {r['error']}")
@@ -296,6 +308,7 @@ def main():
         "paths": sum(r["stats"].get("paths", 0) for r in results),
         "canaries_not_provable": sum(r["stats"].get("canaries", 0) for r in results),
         "encoding_crosschecks": sum(r["stats"].get("xchecks", 0) for r in results),
+        "must_fail_canaries": canary_info,
         "sigma_theory": {k: sum(r["stats"].get("theory", {}).get(k, 0) for r in results)
                          for k in ("regions", "premise_queries", "facts", "analyses")},
         "not_proved": [{"name": o["name"], "status": o["status"], "reason": o.get("reason"), "n": o.get("n")}
